@@ -48,3 +48,12 @@ Proof.
   - apply G_rep. apply G_cap. eapply G_cat; [right; left; reflexivity|]. apply G_here. reflexivity.
   - reflexivity.
 Qed.
+
+(* after F8 only, a dot inside a capture group escapes (finding F9): (.) repeated by a star *)
+Theorem greedy_nocap_refuted : exists r, HasGreedyDot r /\ greedy_nocap r = false.
+Proof.
+  exists (RRep 0 None true (RCap (RClassU [(0, 9); (11, 1114111)]))).
+  split.
+  - apply G_here. reflexivity.
+  - reflexivity.
+Qed.
